@@ -2,6 +2,13 @@
 
 package selector
 
+import (
+	"fmt"
+
+	"golang.org/x/net/html"
+	"golang.org/x/net/html/atom"
+)
+
 // Contracts for the deductive verifier in /verif (build tag verif: not compiled
 // into normal builds). Oracle: Selectors Level 4 §17 (specificity), property C05/C03.
 
@@ -396,3 +403,85 @@ package selector
 //@   nopanic
 //@   requires n != nil
 //@   modifies nothing
+
+// ---------------------------------------------------------------------------
+// bounded stand-in: the sibling walk that computes the index handed to the an+b test is not
+// within reach of the contracts (it needs the sibling list as a mathematical sequence).
+// vNthSiblingIndex enumerates EVERY child list of length <= 4 over {<p>, <x-a>, <x-b> (tag names
+// unknown to the atom table), text node}, every child n, a in [-2,2], b in [-2,3], last and
+// of-type flags, and compares nthPseudoClassSelector.Match with the definition of Selectors 4
+// §14: index = 1 + number of preceding (following, for -last-) element siblings (of the same
+// element name, for -of-type), match iff index = a*k + b for some k >= 0.
+func vNthSiblingIndex() (int, []string) {
+	kinds := []string{"p", "x-a", "x-b", "#text"}
+	mk := func(kind string) *html.Node {
+		if kind == "#text" {
+			return &html.Node{Type: html.TextNode, Data: "t"}
+		}
+		return &html.Node{Type: html.ElementNode, Data: kind, DataAtom: atom.Lookup([]byte(kind))}
+	}
+	n, fails := 0, []string{}
+	var lists [][]string
+	var gen func(cur []string, depth int)
+	gen = func(cur []string, depth int) {
+		if len(cur) > 0 {
+			lists = append(lists, append([]string(nil), cur...))
+		}
+		if depth == 4 {
+			return
+		}
+		for _, k := range kinds {
+			gen(append(cur, k), depth+1)
+		}
+	}
+	gen(nil, 0)
+	for _, l := range lists {
+		parent := &html.Node{Type: html.ElementNode, Data: "div", DataAtom: atom.Div}
+		nodes := make([]*html.Node, len(l))
+		for i, k := range l {
+			nodes[i] = mk(k)
+			parent.AppendChild(nodes[i])
+		}
+		for i, node := range nodes {
+			for _, last := range []bool{false, true} {
+				for _, ofType := range []bool{false, true} {
+					// reference index
+					index := 0
+					if node.Type == html.ElementNode {
+						index = 1
+						lo, hi := 0, i
+						if last {
+							lo, hi = i+1, len(nodes)
+						}
+						for _, c := range nodes[lo:hi] {
+							if c.Type == html.ElementNode && (!ofType || c.Data == node.Data) {
+								index++
+							}
+						}
+					}
+					for a := -2; a <= 2; a++ {
+						for b := -2; b <= 3; b++ {
+							n++
+							want := false
+							if index > 0 {
+								for k := 0; k <= 8; k++ {
+									if a*k+b == index {
+										want = true
+									}
+								}
+							}
+							got := nthPseudoClassSelector{a: a, b: b, last: last, ofType: ofType}.Match(node)
+							if got != want && len(fails) < 5 {
+								fails = append(fails, fmt.Sprintf("children %v child #%d a=%d b=%d last=%v ofType=%v: got %v want %v", l, i, a, b, last, ofType, got, want))
+							}
+						}
+					}
+				}
+			}
+		}
+	}
+	return n, fails
+}
+
+//@ bounded vNthSiblingIndex :nth-child / :nth-last-child / :nth-of-type / :nth-last-of-type over every child list of length <= 4 on 4 node kinds, a in [-2,2], b in [-2,3], against the Selectors 4 definition
+//@   props C05
